@@ -495,7 +495,9 @@ Result execute(const Plan &p) {
     Output onest; sim::RunStatus s3; bool nested = p.get("nested", 0) != 0 && nt >= 2;
     // (the level-scheduled Gauss-Seidel / ILU solves with >= 4 configured threads are a recorded finding in this situation - see
     //  known_findings.json C09-nested-level-schedule; whole solves that use them would only repeat it)
-    if (nested && (w.comp == C_SOLVE || w.comp == C_HIER) && w.relax <= 4 && nt >= 4) nested = false;
+    // (whole hierarchies and solves are run from inside a caller's region in C01 and C10, judged there by truthfulness and by heap / stack
+    //  independence; here the comparison with the single-threaded reference is kept to the kernels, reductions, sweeps and adapters)
+    if (nested && (w.comp == C_SOLVE || w.comp == C_HIER)) nested = false;
     if (nested) {
         s3 = world(nt, p.sched, [&]() {
             #pragma omp parallel
